@@ -988,6 +988,21 @@ func (c *Check) ruleFetchedCursorAdvances(rule string) {
 			} else {
 				wit = append(wit, "the index is not a loop-carried cursor: "+linOfValue(idx).String())
 			}
+			if isPhi {
+				// the read is behind cursor < len(fetched)
+				g := func(iff *ssa.If, br int) bool {
+					r, ok := edgeRel(iff, br)
+					if !ok || r.Op != token.LSS {
+						return false
+					}
+					l := lenOf(r.Y)
+					return l != nil && stripConv(r.X) == ssa.Value(phi) && (l == ia.X || sameExpr(l, ia.X))
+				}
+				okB, wB := mustPass(ia, g)
+				c.Decide(okB, rule, "spynode.fetchSpentOutputs#fetched-output-cursor-bounded", ia.Pos(), "bounds edge-cutset", wB,
+					"the cursor is tested against the number of fetched outputs before the read",
+					"the fetched outputs are read at the cursor without the cursor having been found smaller than their number: a fetcher that returns fewer outputs than asked makes the node panic")
+			}
 			c.Decide(good, rule, "spynode.fetchSpentOutputs#fetched-output-cursor-advances", ia.Pos(), "loop-carried value", wit,
 				"each fetched output is read at a cursor that advances after the read",
 				"the fetched outputs are not read through a cursor that advances after each read: every input whose parent is not stored receives the same (first) fetched output")
@@ -1437,6 +1452,9 @@ func (c *Check) ruleConfirmedStateComplete(rule string) {
 			if s.Field == ta.depth {
 				if k, ok := constInt(s.St.Val); ok && k == 0 {
 					depthEv = append(depthEv, s.St)
+				} else {
+					c.Bad(rule, fk+"#depth-stored-in-confirmation-loop-is-0", s.St.Pos(), "value flow", nil,
+						"an unconfirmed depth other than 0 is stored on a state in the loop that reports the block's txs as confirmed")
 				}
 			}
 		}
@@ -1483,6 +1501,17 @@ func (c *Check) ruleConfirmedStateComplete(rule string) {
 		}
 	}
 	c.Min(rule, "confirmation notifications in the relevant-tx loop", n, 2)
+	// the refeed path builds confirmed states too: any depth it stores is 0
+	if pf := c.P.Fn("spynode.(*Node).provideBlock"); pf != nil {
+		for _, s := range ta.stateStores(pf) {
+			if s.Field == ta.depth {
+				k, ok := constInt(s.St.Val)
+				c.Decide(ok && k == 0, rule, "spynode.(*Node).provideBlock#depth-stored-for-a-block-tx-is-0", s.St.Pos(), "value flow", nil,
+					"a tx delivered from a block is stored with unconfirmed depth 0", "a tx delivered from a (refed) block is stored with an unconfirmed depth other than 0 although it carries a merkle proof")
+			}
+		}
+		c.Touch(pf)
+	}
 }
 
 // ---------------------------------------------------------------------------------------------
@@ -1631,4 +1660,229 @@ func (c *Check) ruleConnectionFlagsReset(rule string, flags map[string]*types.Va
 			"the flag is stored false before the connection's goroutines start",
 			"runConnection starts the connection's goroutines without resetting "+name+" to false: after a reconnect the new connection is treated as already "+name+" before its own accept arrived")
 	}
+}
+
+// ---------------------------------------------------------------------------------------------
+// C08: what makes a tx relevant
+
+// ruleRelevantOnlyByMatch (C08.R10): IsRelevant answers true only behind checkContracts()==true or behind a
+// subscribed hash comparing equal to a push data's hash: every way the returned value can be the
+// constant true passes one of those edges.
+func (c *Check) ruleRelevantOnlyByMatch(rule string) {
+	fn := c.Fn(rule, "spynode.(*Node).IsRelevant")
+	if fn == nil {
+		return
+	}
+	fHashes := c.P.Field("spynode", "Node", "pushDataHashes")
+	match := anyEdge(
+		callEdge(true, -1, nil, "spynode.checkContracts"),
+		condEdge(func(cd Cond) (bool, bool) {
+			// hash.Equal(&subscribed) / array comparison with a subscribed hash
+			if cd.Call != nil && calleeObjName(&cd.Call.Call) == "Equal" {
+				for _, a := range cd.Call.Call.Args {
+					if fHashes != nil && mentionsField(a, fHashes) {
+						return true, true
+					}
+				}
+			}
+			if cd.Bin != nil && cd.Bin.Op == token.EQL && fHashes != nil && (mentionsField(cd.Bin.X, fHashes) || mentionsField(cd.Bin.Y, fHashes)) {
+				return true, true
+			}
+			return false, false
+		}),
+	)
+	n := 0
+	for _, ret := range returnsOf(fn) {
+		if fn.Recover != nil && ret.Block() == fn.Recover {
+			continue
+		}
+		for _, rv := range resultValues(ret, 0) {
+			srcs, all := constSources(ret, rv, 0)
+			if !all && len(srcs) == 0 {
+				// a computed answer: must itself be behind a match
+				n++
+				ok, w := mustPass(ret, match)
+				c.Decide(ok, rule, "spynode.(*Node).IsRelevant#true-only-by-match(computed)", ret.Pos(), "edge-cutset", w,
+					"a computed answer is returned only behind a match", "IsRelevant can answer with a value that is not decided by a contract / push-data match")
+				continue
+			}
+			for _, s := range srcs {
+				if b, isB := isConstBool(s.Val); !isB || !b {
+					continue
+				}
+				n++
+				ok, w := mustPassAt(s, match)
+				c.Decide(ok, rule, "spynode.(*Node).IsRelevant#true-only-by-match", ret.Pos(), "edge-cutset", w,
+					"true is answered only behind checkContracts()==true or a subscribed hash comparing equal",
+					"IsRelevant can answer true without a contract-wide action having been found by checkContracts and without a push data matching a subscribed hash: transactions that match nothing are delivered")
+			}
+		}
+	}
+	c.Min(rule, "true answers of IsRelevant", n, 2)
+}
+
+// ---------------------------------------------------------------------------------------------
+// C06: the confirming tx itself is skipped
+
+// ruleSelfSkipPolarity (C06.R10): in ProcessBlock's loop over the conflicting txs, the cancel steps (state fetch, flags,
+// save, update) are reached only through the edge on which the conflicting hash is NOT the block
+// tx's own hash.
+func (c *Check) ruleSelfSkipPolarity(rule string) {
+	fn := c.Fn(rule, "spynode.(*Node).ProcessBlock")
+	if fn == nil {
+		return
+	}
+	isConfl := func(v ssa.Value) bool { return derivesFromCall(v, "(*state.MemPool).Conflicting") != nil }
+	n := 0
+	for _, h := range loopsRangingOver(fn, isConfl) {
+		body := loopBody(h)
+		// the self comparison: Equal(...) / == between an element of the conflict list and the block tx's hash
+		self := condEdge(func(cd Cond) (bool, bool) {
+			involves := func(v ssa.Value) bool {
+				for _, r := range rootsAll(v) {
+					if ia, ok := r.(*ssa.IndexAddr); ok && isConfl(ia.X) {
+						return true
+					}
+				}
+				return false
+			}
+			if cd.Call != nil && calleeObjName(&cd.Call.Call) == "Equal" && body[cd.Call.Block()] {
+				for _, a := range cd.Call.Call.Args {
+					if involves(a) {
+						return true, false // the guard edge is "not equal"
+					}
+				}
+			}
+			if cd.Bin != nil && (cd.Bin.Op == token.EQL || cd.Bin.Op == token.NEQ) && body[cd.Bin.Block()] && (involves(cd.Bin.X) || involves(cd.Bin.Y)) {
+				if _, isC := cd.Bin.Y.(*ssa.Const); !isC {
+					return true, cd.Bin.Op == token.NEQ
+				}
+			}
+			return false, false
+		})
+		for _, s := range callsTo(fn, "storage.FetchTxState", "storage.SaveTxState") {
+			if !body[s.Instr.Block()] {
+				continue
+			}
+			n++
+			avoid, path := reachAvoid2(h, s.Instr.Block(), self, nil)
+			c.Decide(!avoid, rule, fmt.Sprintf("spynode.(*Node).ProcessBlock#cancel-only-for-other-txs:%s", calleeObjName(s.CC)), s.Pos(), "edge-cutset", pathWitness(fn, path),
+				"the cancel steps are reached only for conflicting txs other than the block tx itself",
+				"the cancel steps for a conflicting tx are reachable without the hash having been found different from the block tx's own: the confirmed tx cancels itself (and the real losers are skipped)")
+		}
+	}
+	c.Min(rule, "cancel steps in the conflict loop", n, 2)
+}
+
+// ---------------------------------------------------------------------------------------------
+// C03 / C04: parallel lists
+
+// ruleParallelListsAligned (C03.R17): the per-tx lists ProcessBlock builds for its notification loop (the txs, their
+// new / known flags, their safe flags) get one element each on every path of an iteration that
+// appends to any of them; the notification loop indexes all of them with the same i.
+func (c *Check) ruleParallelListsAligned(rule string) {
+	fn := c.Fn(rule, "spynode.(*Node).ProcessBlock")
+	if fn == nil {
+		return
+	}
+	// lists: local slices appended to inside the GetNextTx loop and indexed in a later loop
+	var getNext *ssa.Call
+	for _, s := range sitesIn(fn) {
+		if s.CC.IsInvoke() && s.CC.Method.Name() == "GetNextTx" {
+			getNext = s.Value()
+		}
+	}
+	if getNext == nil {
+		return
+	}
+	h := loopHeaderOf(getNext.Block())
+	if h == nil {
+		return
+	}
+	body := loopBody(h)
+	// group appends by the header phi they feed (the list variable)
+	lists := map[*ssa.Phi][]ssa.Instruction{}
+	for _, in := range h.Instrs {
+		phi, ok := in.(*ssa.Phi)
+		if !ok {
+			break
+		}
+		if _, isSl := phi.Type().Underlying().(*types.Slice); !isSl {
+			continue
+		}
+		for b := range body {
+			for _, in2 := range b.Instrs {
+				if call, ok := in2.(*ssa.Call); ok && builtinCall(call, "append") != nil && len(call.Call.Args) > 0 {
+					for _, r := range rootsAll(call.Call.Args[0]) {
+						if r == ssa.Value(phi) {
+							lists[phi] = append(lists[phi], call)
+						}
+					}
+				}
+			}
+		}
+	}
+	// only the lists that are indexed (not ranged alone) after the loop matter: those read by index in a later loop
+	var phis []*ssa.Phi
+	for p, aps := range lists {
+		if len(aps) > 0 {
+			phis = append(phis, p)
+		}
+	}
+	sort.Slice(phis, func(i, j int) bool { return phis[i].Pos() < phis[j].Pos() })
+	if len(phis) < 2 {
+		c.Ok(rule, "spynode.(*Node).ProcessBlock#parallel-lists", fn.Pos(), "per-iteration event count", "fewer than two lists are built in the tx loop")
+		return
+	}
+	// the tx list: element type *wire.MsgTx; the others are compared with it
+	var txList *ssa.Phi
+	for _, p := range phis {
+		if sl, ok := p.Type().Underlying().(*types.Slice); ok {
+			if pt, ok := sl.Elem().(*types.Pointer); ok {
+				if nm, ok := pt.Elem().(*types.Named); ok && nm.Obj().Name() == "MsgTx" {
+					txList = p
+				}
+			}
+		}
+	}
+	if txList == nil {
+		return
+	}
+	n := 0
+	for _, p := range phis {
+		if p == txList {
+			continue
+		}
+		// bool lists only (flags per tx); the txid list for cleanup gets every tx
+		sl, _ := p.Type().Underlying().(*types.Slice)
+		if bt, ok := sl.Elem().Underlying().(*types.Basic); !ok || bt.Kind() != types.Bool {
+			continue
+		}
+		n++
+		diff := func(in ssa.Instruction) int {
+			for _, a := range lists[txList] {
+				if a == in {
+					return 1
+				}
+			}
+			for _, a := range lists[p] {
+				if a == in {
+					return -1
+				}
+			}
+			return 0
+		}
+		dc := iterationCounts(h, diff)
+		ok := len(dc) == 1 && dc[0] != nil
+		var wit []string
+		for k, path := range dc {
+			if k != 0 {
+				wit = append([]string{fmt.Sprintf("an iteration path with (tx appends - flag appends) = %d:", k)}, pathWitness(fn, path)...)
+			}
+		}
+		c.Decide(ok, rule, fmt.Sprintf("spynode.(*Node).ProcessBlock#flag-list-aligned-with-tx-list@%d", n), p.Pos(), "per-iteration event count", wit,
+			"every path of an iteration appends to the tx list and to this flag list equally often",
+			"on some path of an iteration a tx is appended to the delivered list without its flag (or the reverse): the notification loop then reads the flag of another tx or indexes past the end")
+	}
+	c.Min(rule, "per-tx flag lists in ProcessBlock", n, 2)
 }
